@@ -360,10 +360,48 @@ func c19Child(specJSON string) {
 			c19Len(m, sp, rng, out)
 		case "range":
 			c19Range(m, sp, rng, out)
+		case "first":
+			c19First(m, sp, r, out)
 		}
 	}
 	js, _ := json.Marshal(out)
 	os.Stdout.Write(js)
+}
+
+// the very first operations on a FRESH storage, issued by several goroutines released together: every completed Store
+// must be visible afterwards (a history "Store(k,v) completes; Load(k) -> absent" with no Delete is not linearizable)
+func c19First(m c19Map, sp c19Spec, round int, out *c19ChildOut) {
+	G := 2 + round%3
+	var ready, wg sync.WaitGroup
+	var goFlag int32
+	ready.Add(G)
+	wg.Add(G)
+	for g := 0; g < G; g++ {
+		go func(g int) {
+			defer wg.Done()
+			ready.Done()
+			for atomic.LoadInt32(&goFlag) == 0 {
+			}
+			m.Store(fmt.Sprintf("first-%d", g), 100+g)
+		}(g)
+	}
+	ready.Wait()
+	atomic.StoreInt32(&goFlag, 1)
+	wg.Wait()
+	out.Stats["first:rounds"]++
+	for g := 0; g < G; g++ {
+		if v, ok := m.Load(fmt.Sprintf("first-%d", g)); !ok || v != 100+g {
+			out.Fails = append(out.Fails, c19Fail{
+				What: fmt.Sprintf("%s: %d goroutines made the first Store calls on a fresh storage together; Store(first-%d,%d) completed, then Load(first-%d) -> (%d,%v) with no Delete (round %d)",
+					c19Name(sp.Kind, sp.Req), G, g, 100+g, g, v, ok, round),
+				Sig: "conc-first-store-lost", Replay: map[string]any{"spec": sp, "round": round, "goroutines": G}})
+			return
+		}
+	}
+	if n := m.Len(); n != G {
+		out.Fails = append(out.Fails, c19Fail{What: fmt.Sprintf("%s: after %d completed Stores of distinct keys on a fresh storage Len() = %d (round %d)", c19Name(sp.Kind, sp.Req), G, n, round),
+			Sig: "conc-first-store-lost", Replay: map[string]any{"spec": sp, "round": round}})
+	}
 }
 
 // 8 goroutines x 3 keys: every history of one key must be linearizable w.r.t. a register-with-absence
@@ -771,6 +809,9 @@ func c19RunChild(c *Ctx, sp c19Spec) error {
 	}
 	c.Sum.Notes = append(c.Sum.Notes, out.Notes...)
 	for r := 0; r < sp.Rounds; r++ {
+		if sp.Scenario == "first" && r%100 != 0 {
+			continue
+		}
 		c.count(fmt.Sprintf("conc %v round %d", sp, r), true, "conc:"+sp.Scenario+":"+name)
 	}
 	return nil
@@ -805,6 +846,16 @@ func runC19(c *Ctx) error {
 	rounds, ops := 6, 300
 	if !c.quick() {
 		rounds, ops = 300, 500
+	}
+	firstRounds := 4000
+	if !c.quick() {
+		firstRounds = 60000
+	}
+	for _, cf := range []cfg{{1, 0}, {0, 16}, {0, 1}} {
+		sp := c19Spec{Scenario: "first", Kind: cf.kind, Req: cf.req, Seed: c.Seed, Rounds: firstRounds}
+		if err := c19RunChild(c, sp); err != nil {
+			return err
+		}
 	}
 	for _, cf := range []cfg{{0, 16}, {0, 2}, {0, 1}, {1, 0}, {0, 64}} {
 		for _, sc := range []string{"lin", "len", "range"} {
